@@ -153,4 +153,53 @@ example : NoZero [(2, 10), (3, 10), (4, 30)] := by
     · simp
     · split <;> simp
 
+theorem amap_eq_nil_of_get?_none (m : AMap PubKey Int) (h : ∀ k, AMap.get? m k = none) : m = [] := by
+  cases m with
+  | nil => rfl
+  | cons e rest =>
+    obtain ⟨a, b⟩ := e
+    have := h a
+    simp [AMap.get?] at this
+
+/-- **No change, no updates.**  When the intended validator set equals the previous one (the two power maps
+    agree on every key), the block returns an empty update list — in whatever order the maps are ranged over. -/
+theorem C12_no_change (oldm newm : AMap PubKey Int) (oldL newL : List (PubKey × Int))
+    (ho : Listing oldm oldL) (hn : Listing newm newL)
+    (heq : ∀ k, AMap.get? oldm k = AMap.get? newm k) :
+    validatorUpdatesOn (diffPowermapsOn oldm newm oldL newL) = [] := by
+  have hd : diffPowermapsOn oldm newm oldL newL = [] := by
+    apply amap_eq_nil_of_get?_none
+    intro k
+    rw [get?_diff oldm newm oldL newL ho hn k]
+    cases hk : AMap.get? newm k with
+    | none => simp [AMap.contains, heq k, hk]
+    | some v => simp [AMap.getD, heq k, hk]
+  rw [hd]; rfl
+
+/-- **Every update is needed.**  Each entry of the update list changes the previous set: a positive power differs
+    from the validator's previous power (absent counting as zero) and is its intended power; a removal (power 0)
+    is of a validator that is present and not intended. -/
+theorem C12_minimal (oldm newm : AMap PubKey Int) (oldL newL : List (PubKey × Int))
+    (ho : Listing oldm oldL) (hn : Listing newm newL) (k : PubKey) (v : Int)
+    (h : AMap.get? (diffPowermapsOn oldm newm oldL newL) k = some v) :
+    (AMap.get? newm k = some v ∧ oldm.getD k 0 ≠ v) ∨
+    (v = 0 ∧ AMap.get? newm k = none ∧ oldm.contains k = true) := by
+  rw [get?_diff oldm newm oldL newL ho hn k] at h
+  cases hk : AMap.get? newm k with
+  | none =>
+    simp only [hk] at h
+    split at h
+    · rename_i hc
+      simp only [Option.some.injEq] at h
+      exact Or.inr ⟨h.symm, rfl, hc⟩
+    · cases h
+  | some w =>
+    simp only [hk] at h
+    split at h
+    · rename_i hc
+      simp only [Option.some.injEq] at h
+      subst h
+      exact Or.inl ⟨rfl, hc⟩
+    · cases h
+
 end Shutter.Properties.C12
